@@ -23,6 +23,7 @@ func checkC13(c *Ctx) {
 	c13Precision(c)
 	c13ErrorReturns(c)
 	diagsKeptRule(c, "R7", 10, "json")
+	c13ByteClasses(c)
 	c.NotCovered("that the scanner and parser accept every valid JSON text and reject every invalid one (a language-equivalence question over byte strings); only the structural obligations above are decided")
 }
 
@@ -600,4 +601,72 @@ func diagIncludes(x, d ssa.Value, seen map[ssa.Value]bool) bool {
 		}
 	}
 	return false
+}
+
+// R8: the lexical classes of the JSON scanner.
+func c13ByteClasses(c *Ctx) {
+	c.Rule("R8 byteclass: the byte classes of the hand-written JSON scanner, obtained by interpreting each predicate / loop for all 256 byte values: skipWhitespace skips exactly space, tab, LF, CR; scanNumber keeps every byte a JSON number can contain (digits + - . e E); byteCanStartNumber holds for '-' and the digits and for no byte that starts another token; scanKeyword keeps a-z; byteCanStartKeyword holds for t, f, n")
+	set := func(s string) (m [256]bool) {
+		for i := 0; i < len(s); i++ {
+			m[s[i]] = true
+		}
+		return
+	}
+	type inst struct {
+		fn      string
+		loop    bool
+		must    [256]bool // ⊆ class
+		mustNot [256]bool // ∩ class = ∅
+		exact   bool      // class == must
+		what    string
+	}
+	insts := []inst{
+		{"skipWhitespace", true, set(" \t\n\r"), [256]bool{}, true, "JSON whitespace"},
+		{"scanNumber", true, set("0123456789+-.eE"), set(" \t\n\r,]}"), false, "the bytes of a JSON number"},
+		{"byteCanStartNumber", false, set("-0123456789"), set("\"{}[],:tfn \t\n\r"), false, "the first byte of a JSON number"},
+		{"scanKeyword", true, set("abcdefghijklmnopqrstuvwxyz"), set(" \t\n\r,]}:"), false, "the letters of a keyword"},
+		{"byteCanStartKeyword", false, set("tfn"), set("\"{}[],:-0123456789 \t\n\r"), false, "the first byte of a keyword"},
+	}
+	for _, it := range insts {
+		fn := c.P.LookupFunc("json", it.fn)
+		if fn == nil {
+			c.CheckerFail("byteclass", "anchor json."+it.fn+" does not resolve")
+			continue
+		}
+		c.Fn(FuncName(fn))
+		var cls [256]bool
+		var err string
+		if it.loop {
+			cls, err = loopClass(fn)
+		} else {
+			cls, err = predicateClass(fn)
+		}
+		key := "json." + it.fn + ":class"
+		c.Sites++
+		if err != "" {
+			c.Undecided("byteclass", key, fn.Pos(), err)
+			continue
+		}
+		var missing, extra [256]bool
+		bad := false
+		for v := 0; v < 256; v++ {
+			if it.must[v] && !cls[v] {
+				missing[v], bad = true, true
+			}
+			if cls[v] && (it.mustNot[v] || (it.exact && !it.must[v])) {
+				extra[v], bad = true, true
+			}
+		}
+		msg := ""
+		if bad {
+			msg = "json." + it.fn + " does not implement " + it.what + ": class is {" + classString(cls) + "}"
+			if s := classString(missing); s != "" {
+				msg += "; missing {" + s + "}"
+			}
+			if s := classString(extra); s != "" {
+				msg += "; must not contain {" + s + "}"
+			}
+		}
+		c.Check(!bad, "byteclass", key, fn.Pos(), "{"+classString(cls)+"}", msg)
+	}
 }
